@@ -40,7 +40,13 @@ let node_str (n : Builder.node) : string =
     | Builder.NSentinel ty -> "SN " ^ zs ty
     | Builder.NFunc (l, ex) -> "FUNC " ^ zs l ^ " " ^ zs ex
     | Builder.NFuncEnd _ -> "SN " ^ zs Builder.kSentinelFuncEnd
-    | Builder.NFuncRet -> "FRET" in
+    | Builder.NFuncRet -> "FRET"
+    | Builder.NJump (id, opts, es, ei, o, ann) ->
+      "J " ^ zs id ^ " " ^ zs opts ^ " " ^ zs es ^ " " ^ zs ei ^ " 1 3 " ^ zs o.Builder.o_sig ^ " " ^ zs o.Builder.o_id ^ " " ^ zs o.Builder.o_d0 ^ " " ^ zs o.Builder.o_d1 ^
+      " 0 0 0 0 0 0 0 0 ann=" ^ zs ann
+    | Builder.NInvoke (id, opts, es, ei, o) ->
+      "INV " ^ zs id ^ " " ^ zs opts ^ " " ^ zs es ^ " " ^ zs ei ^ " 1 3 " ^ zs o.Builder.o_sig ^ " " ^ zs o.Builder.o_id ^ " " ^ zs o.Builder.o_d0 ^ " " ^ zs o.Builder.o_d1 ^
+      " 0 0 0 0 0 0 0 0" in
   k ^ " " ^ comment_str n.Builder.n_comment
 
 let dump (b : Builder.bstate) : string =
@@ -88,6 +94,10 @@ let cmd_of (st : Builder.bstate) (t : string array) : Builder.cmd option =
   | "FN" -> Some Builder.CFunc
   | "FR" -> Some Builder.CFuncRet
   | "FE" -> Some Builder.CEndFunc
+  | "NC" -> Some (Builder.CNewConst (n 0, unhex (a 1)))
+  | "JA" -> Some Builder.CJumpAnn
+  | "IJ" -> Some (Builder.CJump (n 0, mkop t 3, n 1))
+  | "IV" -> Some (Builder.CInvoke (n 0, mkop t 3))
   | "S" -> Some (Builder.CSection (n 0))
   | "SCUR" -> let i = int_of_string (a 0) in Some (Builder.CSetCursor (if i < 0 then None else Some (nat_of_int i)))
   | "RM" -> Some (Builder.CRemove (ni 0))
